@@ -212,6 +212,15 @@ func NewBlockFromBytes(serializedBlock []byte) (*Block, error) {
 		return nil, err
 	}
 	b.serializedBlock = serializedBlock
+
+	// The given bytes are only the serialization of the parsed block when
+	// all of them were consumed and the block serializes back to the same
+	// length (wire accepts some encodings it does not reproduce, and ignores
+	// trailing bytes).  Otherwise leave the cache empty so that Bytes and
+	// TxLoc work from a fresh serialization of the block.
+	if br.Len() != 0 || b.msgBlock.SerializeSize() != len(serializedBlock) {
+		b.serializedBlock = nil
+	}
 	return b, nil
 }
 
